@@ -74,10 +74,15 @@ class SymAtom:
 
 class SymSet:
     """frozenset facade: membership of a symbolic atom is a symbolic boolean"""
-    def __init__(self, eng, items): self.eng = eng; self.items = frozenset(items)
+    def __init__(self, eng, items):
+        # membership keeps the semantics of the ORIGINAL container (a str container means substring test, a dict means key test)
+        self.eng = eng; self.orig = items; self.items = frozenset(items)
+    def _has(self, w):
+        try: return w in self.orig
+        except TypeError: return False
     def __contains__(self, x):
-        if isinstance(x, SymAtom): return bool(SymBool(self.eng, z3.Or(*[x.var == i for i, w in enumerate(x.vocab) if w in self.items])))
-        return x in self.items
+        if isinstance(x, SymAtom): return bool(SymBool(self.eng, z3.Or(*[x.var == i for i, w in enumerate(x.vocab) if self._has(w)])))
+        return self._has(x)
     def __iter__(self): return iter(self.items)
     def __len__(self): return len(self.items)
     def __or__(self, o): return SymSet(self.eng, self.items | frozenset(o))
